@@ -84,7 +84,7 @@ PlanOf(p) ==
                         meth \in {"SLERP", "CUBIC", "CNSMOOTH"}, pk \in {"zero", "one", "random", "dyadic", "below", "above", "nan"} }
                     \cup { Cell("phi", key, k, "-", "-", "-", "-", "-", 0) : key \in {"SE3_d", "SE3_f"}, k \in {"grid", "random"} }
     [] p = "C16" -> { Cell("avg", key, thc, linc, routine, kind, "-", "-", 0) :
-                        key \in Range(GroupsQ), thc \in {"zero", "generic", "near_pi", "at_pi"}, linc \in {"zero", "1"},
+                        key \in Range(GroupsQ), thc \in {"zero", "generic", "near_pi", "at_pi"}, linc \in {"zero", "1", "1e3"},
                         routine \in {"biinvariant", "average", "frechet_left", "frechet_right"},
                         kind \in {"n1", "n2", "n3", "n10", "same", "empty"} \cup (IF Tier = "thorough" THEN {"n50"} ELSE {}) }
     [] p = "C18" -> { Cell("isapprox", key, ThetaElem[i], linc, Hemis[h], "generic", e, f, 0) :
@@ -103,7 +103,10 @@ PlanOf(p) ==
 \* cells except the 1e6 linear magnitude (the coupling blocks of SGal3 involve products of two
 \* linear coordinates, 1e12, which single precision cannot carry to 1e-3)
 IsFloatKey(k) == \E i \in 1..Len(GroupsF) : GroupsF[i] = k
-FloatOK(c) == (Prop \in {"C05", "C06"} /\ IsFloatKey(c.key)) => (c.linc # "1e6" /\ c.linc2 # "1e6")
+FloatOK(c) == /\ (Prop \in {"C05", "C06"} /\ IsFloatKey(c.key)) => (c.linc # "1e6" /\ c.linc2 # "1e6")
+              \* averages: the stationarity residual is judged at an absolute 2*sqrt(eps); with coordinates of 1e3 single precision
+              \* resolves the SGal3 coupling terms (1e6) to 0.06 only, so the large-spread clouds are double only
+              /\ (Prop = "C16" /\ IsFloatKey(c.key)) => c.linc # "1e3"
 
 VARIABLE cell
 Init == cell \in { c \in PlanOf(Prop) : FloatOK(c) }
